@@ -761,7 +761,9 @@ pub fn judge_under_faults(plan: &ClientPlan, run: &ClientRun) -> Judged {
         let op = &plan.ops[o.index as usize];
         let name = op.name();
         let reqs: Vec<&ReqLog> = all_reqs.iter().filter(|r| r.op == o.index).collect();
-        let traffic = log.entries[o.log_from.min(log.entries.len())..o.log_to.min(log.entries.len())].iter().any(is_traffic);
+        // a connect attempt (even a refused one) is traffic towards the terminal, too
+        let traffic = log.entries[o.log_from.min(log.entries.len())..o.log_to.min(log.entries.len())].iter().any(is_traffic)
+            || run.connect_log.iter().any(|(seq, _)| o.log_from <= *seq && *seq < o.log_to);
         let pk: Vec<&Pkt> = reqs.iter().filter_map(|r| r.pkt.as_ref()).collect();
         match op {
             OpSpec::Begin { token, .. } => {
@@ -939,6 +941,17 @@ pub fn judge_under_faults(plan: &ClientPlan, run: &ClientRun) -> Judged {
                     }));
                 } else if o.result.is_ok() {
                     j.stats.hit("probe.card_classified_after_retry");
+                }
+                // ... and a card the terminal did deliver is not lost: when the last read-card exchange
+                // of the call ran to its end (status information emitted, no fault on it), trouble in an
+                // earlier attempt of the same call is no reason to fail
+                let last_rc = reqs.iter().rev().find(|r| (r.frame[0], r.frame[1]) == (0x06, 0xc0));
+                if let Some(last) = last_rc {
+                    let delivered = last.completed.is_some() && last.pkt.is_some();
+                    let definite = matches!(want, CardExpect::Bank | CardExpect::Membership(_));
+                    if delivered && definite && matches!(o.result, OpResult::Err { .. }) && reqs.iter().filter(|r| (r.frame[0], r.frame[1]) == (0x06, 0xc0)).count() > 1 {
+                        j.fail("C18", "card_lost_after_retry", "under_faults", format!("the retried read-card exchange delivered {:?}, yet read_card returned {}", card.kind, o.result.class()));
+                    }
                 }
             }
         }
